@@ -674,6 +674,23 @@ pub fn assemble(srcs: &[SrcFile], file: &Value) -> Assembled {
     for (j, r) in recs.iter().enumerate() {
         let s = ju64(r, "src") as usize;
         let idx = ju64(r, "idx") as usize;
+        if s >= srcs.len() {
+            // forged record: never sealed by anyone
+            let lenf = ju64_or(r, "lenf", 0);
+            let flagf = ju64_or(r, "flagf", 1);
+            let mut rec = Vec::new();
+            rec.extend_from_slice(&(idx as u64).to_be_bytes());
+            rec.extend_from_slice(&(flagf as u32).to_be_bytes());
+            rec.extend_from_slice(&(lenf as u32).to_be_bytes());
+            rec.extend_from_slice(&Rng::derive(77, &format!("forge{}", j)).bytes(lenf as usize + 16));
+            opens_v.push(false);
+            last_v.push(flagf);
+            ctrok_v.push(true);
+            bytes.extend_from_slice(&rec);
+            ends.push(bytes.len() as u64);
+            plens.push(lenf);
+            continue;
+        }
         let mut rec = srcs[s].recs[idx].clone();
         let plen = srcs[s].chunks[idx];
         let last = if idx + 1 == srcs[s].chunks.len() { 1u64 } else { 0 };
@@ -842,6 +859,12 @@ pub fn run_dec(ctx: &Ctx, scn: &Value) -> Vec<Value> {
         for r in recs.iter_mut() {
             let s = ju64(r, "src") as usize;
             let idx = ju64(r, "idx") as usize;
+            if s >= srcs.len() {
+                let lenf = ju64_or(r, "lenf", 0);
+                let flagf = ju64_or(r, "flagf", 1);
+                *r = json!({"src": 99, "idx": idx, "plen": lenf, "last": flagf, "flagf": flagf, "lenf": lenf, "ctrok": true, "tam": true});
+                continue;
+            }
             let plen = srcs[s].chunks[idx];
             let last = if idx + 1 == srcs[s].chunks.len() { 1u64 } else { 0 };
             let flagf = ju64_or(r, "flagf", last);
